@@ -476,6 +476,10 @@ impl Prop for C16Prop {
                 if v.case.get("constant_text").and_then(|t| t.as_str()).map(|t| t.contains("_$_")).unwrap_or(false) {
                     return Some(id);
                 }
+                // ... also when the name came back as one atom shown in hex: the bytes of "_$_"
+                if v.observed.contains("5f245f") {
+                    return Some(id);
+                }
                 let defs = v.case.get("definitions")?.as_str()?;
                 let e = v.case.get("expression")?.as_str()?;
                 let renamed = rename_free(e);
@@ -509,6 +513,12 @@ impl Prop for C16Prop {
                 let r = v.case.get("residual")?.as_str()?;
                 // ... or a renamed let/assign-bound name as a constant: (1 . V20_$_2071848)
                 if r.contains("_$_") {
+                    return Some(id);
+                }
+                // ... or an if branch that com compiled to code returning a bare quoted constant,
+                // (q 2 (1 . K) (4 (1) 1)): what a bound name under an if turns into when the
+                // bindings in force are not visible to com
+                if r.contains("(q 2 (1 . ") && r.contains("(4 (1) 1))") {
                     return Some(id);
                 }
                 if ["x", "y", "z"].iter().any(|n| r.contains(&format!("1 . {n})")) || r.contains(&format!("q . {n})"))) {
